@@ -76,6 +76,9 @@ func (s *Subscription) Closed() bool {
 	}
 }
 
+// End closes the subscription's channel from the subscriber's side (connection lost, topic deleted, ...).
+func (s *Subscription) End() { s.close() }
+
 func (s *Subscription) close() {
 	s.closeOnce.Do(func() {
 		close(s.closing)
